@@ -145,9 +145,12 @@ def run(model, rep, tier):
                 elist = next((m['_N_e'] for m in pattern.find(blk, '_N_e.append(_N_s)', _N_s=b['_N_s'])), None)
 
                 def _loops(node):
+                    # loops over the cluster order do not count: clusters made in different passes differ in Norder, which
+                    # Cluster.__eq__ compares, so a per-order seen-set loses nothing
                     out, p_ = [], getattr(node, '_parent', None)
                     while p_ is not None and p_ is not fn:
-                        if isinstance(p_, (ast.For, ast.While)):
+                        if isinstance(p_, (ast.For, ast.While)) and not (isinstance(p_, ast.For) and isinstance(p_.iter, ast.Call)
+                                                                         and unparse(p_.iter.func) == 'range' and 'maxorder' in unparse(p_.iter)):
                             out.append(id(p_))
                         p_ = getattr(p_, '_parent', None)
                     return set(out)
